@@ -248,7 +248,8 @@ def check(prop, tier, res, replay=None):
                         per[clause] = per.get(clause, 0) + 1
                         if per[clause] <= 2:
                             res.violation(f"{pl['family']}:{clause}:{pure.case_key(cse, pl['key_fields'])}", f"{prop} violated by the implementation on a concrete input ({pl['family']}/{clause}): {v[:300]}",
-                                          {"kind": "case", "family": pl["family"], "case": json.loads(cse), "verdict": v}, found=True)
+                                          {"kind": "case", "family": pl["family"], "case": json.loads(cse), "verdict": v,
+                                           "rerun": {"harness": [pl["sub"]] + [str(a) for a in pl["args"](tier, sd, sh)], "driver_mode": pl["mode"]}}, found=True)
                     elif not v.startswith("PROP "):
                         res.violation(f"{pl['family']}:diverge:{v.split(' ')[1] if ' ' in v else '?'}", f"correspondence broken ({pl['family']}): {v[:300]}",
                                       {"kind": "case", "family": pl["family"], "theorem_or_tie": f"correspondence {pl['mode']} model vs implementation", "case": cse[:2000], "verdict": v}, found=False)
